@@ -8,6 +8,10 @@
 // status < 400, with a token / device code / active:true, or - on the token endpoint - with something that is not
 // an OAuth error document, is a violation. Successes are only counted (every cell must have been seen succeeding
 // with a right credential, otherwise the refusals would prove nothing).
+//
+// Fault sweep: a must-refuse request that was properly refused is repeated with each storage call of the request
+// failing in turn (every fault kind); "always refused" does not depend on the health of the storage, so a look-up /
+// secret check / key fetch whose error is swallowed and followed by a permissive path shows as a success under fault.
 package main
 
 import (
@@ -211,22 +215,9 @@ func execute(run *ev.Run, s *spec, router int, pl pool) {
 		run.Count("must_refuse_reasons", all)
 		run.Observed("seen:" + rn + ":" + primary)
 		key := "C05:" + cell + ":" + primary
-		switch {
-		case len(o.yields) > 0:
+		if suffix, what := refusalBreach(s, o); what != "" {
 			run.Count("outcome", "mustRefuse:VIOLATED")
-			run.Violation(key, int64(s.Idx), fmt.Sprintf("%s answered %d with %v although the request must be refused (%s; presentation %s; registered %s)", cell, o.status, o.yields, all, presNames[s.Pres], authNames[s.Auth]), witness)
-			return
-		case o.status < 400:
-			run.Count("outcome", "mustRefuse:VIOLATED")
-			run.Violation(key, int64(s.Idx), fmt.Sprintf("%s answered with success status %d although the request must be refused (%s; presentation %s; registered %s)", cell, o.status, all, presNames[s.Pres], authNames[s.Auth]), witness)
-			return
-		case len(o.acted) > 0:
-			run.Count("outcome", "mustRefuse:VIOLATED")
-			run.Violation(key+":acted-although-refused", int64(s.Idx), fmt.Sprintf("%s answered %d but acted for the client (%v) although the request must be refused (%s)", cell, o.status, o.acted, all), witness)
-			return
-		case isTokenOp(s.Op) && !o.errDoc:
-			run.Count("outcome", "mustRefuse:VIOLATED")
-			run.Violation(key+":not-an-oauth-error-document", int64(s.Idx), fmt.Sprintf("%s refused with %d but the body is not an OAuth error document (%s)", cell, o.status, all), witness)
+			run.Violation(key+suffix, int64(s.Idx), fmt.Sprintf("%s %s although the request must be refused (%s; presentation %s; registered %s)", cell, what, all, presNames[s.Pres], authNames[s.Auth]), witness)
 			return
 		}
 		run.Count("outcome", "mustRefuse:refused")
@@ -237,6 +228,12 @@ func execute(run *ev.Run, s *spec, router int, pl pool) {
 		if primary == "post-disabled" {
 			run.Observed("post-disabled-refused:" + rn)
 		}
+		if twoKinds(s.Pres) {
+			run.Count("two_kinds_refused", cell+":"+primary+":"+presNames[s.Pres])
+			if primary == "wrong-kind-secret" || primary == "wrong-kind-assertion" {
+				run.Observed("two-kinds:" + primary + ":" + cell)
+			}
+		}
 		run.Count("refusal_error:"+rn, o.errCode)
 		run.Count("refusal_status", fmt.Sprint(o.status))
 		for _, mth := range o.mutating {
@@ -244,6 +241,9 @@ func execute(run *ev.Run, s *spec, router int, pl pool) {
 		}
 		if sampleKinds["refused:"+primary] {
 			run.SampleKind("refused:"+primary, witness)
+		}
+		if s.FaultAt == 0 {
+			faultSweep(run, s, w, router, rq, m, journal, key, all, witness)
 		}
 		return
 	}
@@ -295,6 +295,126 @@ func execute(run *ev.Run, s *spec, router int, pl pool) {
 	run.SampleKind("open:refused", witness)
 }
 
+// refusalBreach says how (if at all) an answer falls short of the refusal the statement demands: "always refused with a
+// non-success status - on the token endpoint as an OAuth error document - and never yields a token or an active
+// introspection result"; nothing may have been done for the client either.
+func refusalBreach(s *spec, o observation) (keySuffix, what string) {
+	switch {
+	case len(o.yields) > 0:
+		return "", fmt.Sprintf("answered %d with %v", o.status, o.yields)
+	case o.status < 400:
+		return "", fmt.Sprintf("answered with success status %d", o.status)
+	case len(o.acted) > 0:
+		return ":acted-although-refused", fmt.Sprintf("answered %d but acted for the client (%v)", o.status, o.acted)
+	case isTokenOp(s.Op) && !o.errDoc:
+		return ":not-an-oauth-error-document", fmt.Sprintf("refused with %d but the body is not an OAuth error document", o.status)
+	}
+	return "", ""
+}
+
+const sweepMaxCalls = 12
+
+// faultSweep: a request that must be refused, and that a healthy storage saw refused after the storage calls in
+// `healthy`, is sent again once per (call position j, fault kind): the j-th storage call of the request answers an
+// injected error (plain error, wrapped context.DeadlineExceeded, oidc server_error). The statement's obligation does not
+// depend on the health of the storage ("always refused"): whichever look-up, secret check, key fetch or state read
+// fails, the provider may answer with another error, but it may not continue as if the client had authenticated in the
+// way it is registered / held the grant. The registration, the credential and the grant material are those of the
+// healthy run (a refused request consumes nothing the obligation depends on).
+func faultSweep(run *ev.Run, s *spec, w *opdrv.World, router int, rq *request, m material, healthy []vstore.Entry, key, all string, base map[string]any) {
+	rn := opdrv.RouterNames[router]
+	cell := rn + ":" + opNames[s.Op]
+	k := len(healthy)
+	run.Count("fault_sweep:storage_calls_of_the_refused_request", fmt.Sprintf("%s:%d", rn, k))
+	if k == 0 {
+		return
+	}
+	if k > sweepMaxCalls {
+		run.Count("fault_sweep:capped", cell)
+		k = sweepMaxCalls
+	}
+	methods := make([]string, 0, len(healthy))
+	for _, e := range healthy {
+		methods = append(methods, e.Method)
+	}
+	primary, _, _ := strings.Cut(all, "+")
+	reached := false
+	for j := 1; j <= k; j++ {
+		for kind := vstore.FaultKind(0); kind < vstore.NumFaultKinds; kind++ {
+			w.Store.ResetJournal()
+			w.Store.SetJournal(true)
+			w.Store.Arm(&vstore.FaultPlan{At: j, Kind: kind})
+			resp := send(s, w, router, rq)
+			fired := w.Store.Fired() > 0
+			w.Store.Arm(nil)
+			journal := w.Store.Journal()
+			w.Store.SetJournal(false)
+			w.Store.ResetJournal()
+			if !fired {
+				// the request did not get as far this time
+				run.Count("fault_sweep:outcome", "fault-position-not-reached")
+				continue
+			}
+			run.Eval()
+			reached = true
+			faulted := "?"
+			for _, e := range journal {
+				if e.Fault {
+					faulted = e.Method
+				}
+			}
+			run.Count("fault_sweep:faulted_call", rn+":"+faulted)
+			o := observe(resp)
+			for _, e := range journal {
+				if e.Mutating() && e.Err == "" && e.Method == "StoreDeviceAuthorization" && s.Op == opDevAuth {
+					o.acted = append(o.acted, "device authorization stored")
+				}
+			}
+			if s.Op == opRevoke {
+				dead := false
+				if s.RevokeKind == 2 || s.RevokeKind == 3 {
+					dead = !w.Store.RefreshLive(m.Refresh)
+				} else {
+					dead = !w.Store.TokenLive(w.TokenID(m.Access))
+				}
+				if dead {
+					o.acted = append(o.acted, "token revoked")
+				}
+			}
+			witness := map[string]any{}
+			for kk, vv := range base {
+				witness[kk] = vv
+			}
+			witness["storage_fault"] = map[string]any{"at_call": j, "method": faulted, "kind": int(kind), "error": kind.Err().Error(), "storage_calls_of_the_healthy_run": methods}
+			witness["response_with_healthy_storage"] = base["response"]
+			witness["response"] = map[string]any{"status": resp.Status, "body": trunc(resp.Body.String(), 600), "acted": o.acted}
+			if resp.Panic != nil {
+				witness["panic"] = resp.Panic.Value
+				witness["stack"] = trunc(resp.Panic.Stack, 3000)
+				if resp.Panic.InRepo {
+					run.Violation("C05:panic:"+resp.Panic.Site(), int64(s.Idx), fmt.Sprintf("handler panicked while answering a %s request (%s) whose storage call %d (%s) failed: %s", cell, presNames[s.Pres], j, faulted, resp.Panic.Value), witness)
+				} else {
+					run.HarnessBug("panic outside the library: " + resp.Panic.Value + " at " + resp.Panic.Frame)
+				}
+				run.Count("fault_sweep:outcome", "panic")
+				return
+			}
+			if suffix, what := refusalBreach(s, o); what != "" {
+				run.Count("fault_sweep:outcome", "mustRefuse:VIOLATED")
+				run.Violation(key+suffix+":storage-fault:"+faulted, int64(s.Idx), fmt.Sprintf("%s %s when storage call %d of the request (%s) failed with %q, although the request must be refused (%s; presentation %s; registered %s) and is refused (%v) while the storage is healthy", cell, what, j, faulted, kind.Err().Error(), all, presNames[s.Pres], authNames[s.Auth], base["response"].(map[string]any)["status"]), witness)
+				return
+			}
+			run.Count("fault_sweep:outcome", "mustRefuse:refused")
+			run.Count("fault_sweep:refusal_error:"+rn, o.errCode)
+		}
+	}
+	if reached {
+		run.Observed("fault-sweep:" + cell)
+		run.Observed("fault-sweep:" + rn + ":" + primary)
+		run.Count("fault_sweep:swept", cell+":"+primary)
+	}
+}
+
 func runCase(run *ev.Run, i int, pl pool) {
 	s := buildSpec(run.CaseRand(5, i), i)
 	execute(run, s, opdrv.RouterProvider, pl)
@@ -303,13 +423,15 @@ func runCase(run *ev.Run, i int, pl pool) {
 
 func main() {
 	run := ev.Start("C05", "exploration")
-	run.SetRule(fmt.Sprintf("case index i enumerates the core product endpoint/grant(%d) x credential presentation(%d) x registered auth method(%d) x grant-list shape(%d) = %d cells cyclically; provider flags (AuthMethodPost, AuthMethodPrivateKeyJWT, GrantTypeRefreshToken), storage capability subset, application type, dual credential material, id/secret alphabets, token kinds, and the placement of grant_type (body / URL query only / both equal / two different grants in query and body), of the client credentials and of the grant parameters (body / query / both / secret differing) are drawn per case; when grant_type names two grants the grant obligations are judged by the grant actually served (storage journal); every 2xx device authorization is checked to be stored for the acting client; each case runs on both routers after minting valid grant material through the real flows; distinct = distinct vectors (router, cell, presentation, auth method, target grant registered/disabled, app type, dual, post/pkjwt flags, id flavour, secret flavour) whose request was answered and judged",
+	run.SetRule(fmt.Sprintf("case index i enumerates the core product endpoint/grant(%d) x credential presentation(%d) x registered auth method(%d) x grant-list shape(%d) = %d cells cyclically; provider flags (AuthMethodPost, AuthMethodPrivateKeyJWT, GrantTypeRefreshToken), storage capability subset, application type, dual credential material, id/secret alphabets, token kinds, and the placement of grant_type (body / URL query only / both equal / two different grants in query and body), of the client credentials and of the grant parameters (body / query / both / secret differing) are drawn per case; when grant_type names two grants the grant obligations are judged by the grant actually served (storage journal); every 2xx device authorization is checked to be stored for the acting client; the presentations include credentials of BOTH kinds in one request (registered secret via Basic / form next to a worthless assertion, wrong or right secret next to a valid assertion) for clients whose record holds a secret and a key; every must-refuse request that a healthy storage saw properly refused is sent again once per (storage call j of that request, fault kind) with exactly that call failing (fault sweep: plain error, wrapped context.DeadlineExceeded, oidc server_error) and must be refused each time; one request in six additionally meets a fault at a random call; each case runs on both routers after minting valid grant material through the real flows; distinct = distinct vectors (router, cell, presentation, auth method, target grant registered/disabled, app type, dual, post/pkjwt flags, id flavour, secret flavour) whose request was answered and judged",
 		numOps, numPres, numAuth, numGrantKinds, coreCells))
 	run.Assume(
 		"vstore policy: AuthorizeClientIDSecret / ClientCredentials compare the stored secret only (an empty stored secret never matches); GetKeyByIDAndClientID returns keys registered under exactly that client id",
 		"grant material is minted under a conforming registration (Basic, all grants) of the same client id; the registration under test is installed before the judged request (the statement speaks about the registration at the time of the request)",
 		"jwt-bearer grant: the assertion is the credential and the library resolves no op.Client for it, so an issuer that is a client without that grant is grey",
 		"client_credentials and introspection authenticate an opaque caller id purely through storage (no op.Client registration is resolved; an introspection caller may be a service account without registration), so a credential of the other kind that the storage accepts there is grey",
+		"fault sweep: the repeated request is literally the healthy run's request against the same registration and grant material; a refusal consumes nothing the refusal obligation depends on, so the obligation is the same for every repetition; fault positions the repeated request does not reach are counted (fault-position-not-reached), not judged",
+		"credentials of both kinds: a valid credential of the registered kind next to a wrong / superfluous credential of the other kind is grey; a credential of the other kind next to a worthless credential of the registered kind is must-refuse (wrong-kind-secret / wrong-kind-assertion) wherever the wrong kind alone is",
 		"a right secret in a non-canonical encoding, right+wrong secrets together, a valid assertion while private_key_jwt is disabled are grey (HEAD is not uniform there); a registered secret that travels only in the form / query while the provider has client_secret_post disabled is NOT an authentication (must-refuse: post-disabled)",
 	)
 	var mand []string
@@ -321,6 +443,18 @@ func main() {
 			mand = append(mand, "seen:"+rn+":"+r)
 		}
 		mand = append(mand, "post-disabled-refused:"+rn, "ok-with-grant_type-in-query-only:"+rn, "devauth-mixed-identity-stored-for-authenticated-client:"+rn)
+		// credentials of both kinds in one request: the kind the client is not registered for was seen refused on every
+		// cell where the library resolves the registration
+		for _, o := range []int{opCode, opRefresh, opTE, opDevice, opRevoke} {
+			mand = append(mand, "two-kinds:wrong-kind-secret:"+rn+":"+opNames[o], "two-kinds:wrong-kind-assertion:"+rn+":"+opNames[o])
+		}
+		// fault sweep: refused requests of every cell / refusal class were repeated with each of their storage calls failing
+		for _, o := range positiveOps {
+			mand = append(mand, "fault-sweep:"+rn+":"+opNames[o])
+		}
+		for _, r := range []string{"unknown-client", "wrong-secret", "wrong-kind-secret", "wrong-kind-assertion", "post-disabled", "bad-assertion", "no-credential", "grant-unregistered", "grant-disabled", "mixed-identity", "public-client-not-allowed"} {
+			mand = append(mand, "fault-sweep:"+rn+":"+r)
+		}
 	}
 	n := run.N(10*coreCells, 80*coreCells)
 	if rc := run.ReplayCase(); rc >= 0 {
